@@ -462,7 +462,17 @@ def vacuity_check(gen, meta, my_fns):
     expected = [(f["src"], f["item"]) for f in vmeta["functions"] if f.get("kind") == "fn" and not f.get("external_body")]
     vacuous = [f"{s}::{k}" for (s, k) in expected if (s, k) not in failed_fns]
     mine_expected = [(f["src"], f["item"]) for f in my_fns if f.get("kind") == "fn" and not f.get("external_body")]
-    return {"ok": not vacuous, "functions_checked": len(expected), "functions_refuted_false": len(expected) - len(vacuous),
+    # lemmas: every proof fn of contracts/lemmas_*.rs must fail with `ensures false`
+    fres = function_results(res["json"])
+    lem = lemma_index()
+    lem_vacuous = []
+    for n in lem:
+        hits = [k for k in fres if k.endswith("::lemmas::" + n)]
+        if not hits or fres[hits[0]]["success"]:
+            lem_vacuous.append("lemma " + n)
+    vacuous += lem_vacuous
+    return {"ok": not vacuous, "functions_checked": len(expected), "functions_refuted_false": len(expected) - len([v for v in vacuous if not v.startswith("lemma ")]),
+            "lemmas_checked": len(lem), "lemmas_refuted_false": len(lem) - len(lem_vacuous),
             "of_this_property": len(mine_expected), "vacuous": vacuous,
             "problem": ("`ensures false` verified for: " + ", ".join(vacuous)) if vacuous else "",
             "wall_s": round(res["wall_s"], 2), "cache_hit": res.get("cache_hit", False)}
